@@ -152,7 +152,11 @@ int main() {
                 GEOSGeometry* pt = GEOSGeom_createPointFromXY_r(h, p.x, p.y);
                 s += i2s(GEOSIntersects_r(h, (const GEOSGeometry*)poly.get(), pt)); s += " ";
                 s += i2s(GEOSContains_r(h, (const GEOSGeometry*)poly.get(), pt)); s += " ";
-                s += i2s(GEOSPreparedIntersects_r(h, pg, pt));
+                s += i2s(GEOSPreparedIntersects_r(h, pg, pt)); s += " ";
+                s += i2s(GEOSTouches_r(h, (const GEOSGeometry*)poly.get(), pt)); s += " ";
+                char* im = GEOSRelate_r(h, (const GEOSGeometry*)poly.get(), pt);     // column "interior of the point": rows I, B, E of the polygon
+                s += (im == nullptr) ? '?' : im[0] == '0' ? 'I' : im[3] == '0' ? 'B' : im[6] == '0' ? 'E' : '?';
+                if (im) GEOSFree_r(h, im);
                 GEOSGeom_destroy_r(h, pt); GEOSPreparedGeom_destroy_r(h, pg);
                 return s;
             });
